@@ -35,6 +35,11 @@ def main(argv):
         os.makedirs(runner.EVIDENCE, exist_ok=True)
         print('glomsim ready; source fingerprint', glomsim.loader.src_fingerprint())
         return 0
+    if argv[0] == '--c06-cold':
+        import json
+        from glomsim.checks import c06
+        print(json.dumps(c06.cold_main(json.load(sys.stdin))))
+        return 0
     if argv[0] == '--replay':
         return runner.replay_file(argv[1])
     if argv[0] == '--selftest':
